@@ -24,6 +24,7 @@ EXPLANATION = (
     "and of the per-fold target list (both filled per enumerate index of "
     "the same fold slices), a RuntimeError is re-raised as an explicit "
     "error and nothing is yielded on that path. Also: the model-versus-best-feature comparison of brew (shared with C07a) decides whether the calibrated scores are what is returned. "
+    "Also: the per-collection state clause of _predict (shared with C02d). "
     "NOT decided: a > b for "
     "given data (strict monotonicity), estimator behaviour.")
 TECHNIQUE = ("def-use term reconstruction + linear normal form + CFG "
